@@ -25,6 +25,7 @@ import (
 	"github.com/marekgalovic/anndb/cluster"
 	pb "github.com/marekgalovic/anndb/protobuf"
 	"github.com/marekgalovic/anndb/storage"
+	"github.com/golang/protobuf/proto"
 	"github.com/marekgalovic/anndb/storage/raft"
 	uuid "github.com/satori/go.uuid"
 	_ "verifharness/internal/hx"
@@ -33,7 +34,10 @@ import (
 // Scenario: a list of steps; "conf+N" / "conf-N" = membership entry, "create:R" = Create a dataset with
 // replication factor R (1 partition) through the real DatasetManager.Create, "delete" = delete the oldest
 // dataset, "burst" marks that all following entries are queued BEFORE the apply goroutine is released
-// (what a restart replays).
+// (what a restart replays).  Entries proposed by OTHER nodes arrive through the same log: "fcreate:N" = a
+// dataset whose single partition is hosted on node N only, "pnode-N" / "pnode+N" = node N is removed from /
+// added to the replica set of the last such partition (what a partition leader's allocator proposes when it
+// hears that a node left, or finds the partition under-replicated).
 type Scenario struct {
 	Name  string   `json:"name"`
 	Steps []string `json:"steps"`
@@ -150,11 +154,11 @@ func stallSignature() string {
 		}
 		// only the two goroutines the property is about: the zero group's apply goroutine and the
 		// allocator loop (other blocked goroutines are victims of the cycle, not part of it)
-		if !strings.Contains(g, "main.(*group).run") && !strings.Contains(g, "(*Allocator).run") {
+		if !strings.Contains(g, "main.(*group).run") && !strings.Contains(g, "(*Allocator).run") && !strings.Contains(g, "(*Allocator).runNodeChanges") {
 			continue
 		}
-		if chain[0] == "Allocator.run" && len(chain) == 1 {
-			continue // the idle loop
+		if (chain[0] == "Allocator.run" || chain[0] == "Allocator.runNodeChanges") && len(chain) == 1 {
+			continue // the idle loops
 		}
 		if strings.HasPrefix(chain[0], "RaftGroup.") || strings.HasPrefix(chain[0], "RaftTransport.") {
 			continue // partition raft groups ticking
@@ -187,6 +191,7 @@ func main() {
 	}
 	go g.run()
 	var created []uuid.UUID
+	var fds, fpart uuid.UUID
 	var mu sync.Mutex
 	nsteps := 0
 	var wg sync.WaitGroup
@@ -219,6 +224,26 @@ func main() {
 				time.Sleep(time.Millisecond)
 			}
 			time.Sleep(5 * time.Millisecond)
+		case strings.HasPrefix(st, "fcreate:"):
+			var n uint64
+			fmt.Sscanf(st, "fcreate:%d", &n)
+			nsteps++
+			fds, fpart = uuid.NewV4(), uuid.NewV4()
+			dd, _ := proto.Marshal(&pb.Dataset{Id: fds.Bytes(), Dimension: 2, Space: pb.Space_Euclidean, PartitionCount: 1, ReplicationFactor: 1,
+				Partitions: []*pb.Partition{{Id: fpart.Bytes(), NodeIds: []uint64{n}}}})
+			pd, _ := proto.Marshal(&pb.DatasetManagerChange{Type: pb.DatasetManagerChangeType_DatasetManagerCreateDataset, NotificationId: uuid.NewV4().Bytes(), Data: dd})
+			g.push(entry{data: pd})
+		case strings.HasPrefix(st, "pnode"):
+			var n uint64
+			fmt.Sscanf(st[6:], "%d", &n)
+			nsteps++
+			t := pb.DatasetPartitionNodesChangeType_DatasetPartitionNodesChangeAddNode
+			if st[5] == '-' {
+				t = pb.DatasetPartitionNodesChangeType_DatasetPartitionNodesChangeRemoveNode
+			}
+			cd, _ := proto.Marshal(&pb.DatasetPartitionNodesChange{Type: t, DatasetId: fds.Bytes(), PartitionId: fpart.Bytes(), NodeId: n})
+			pd, _ := proto.Marshal(&pb.DatasetManagerChange{Type: pb.DatasetManagerChangeType_DatasetManagerUpdatePartitionNodes, NotificationId: uuid.NewV4().Bytes(), Data: cd})
+			g.push(entry{data: pd})
 		case st == "delete":
 			nsteps++
 			mu.Lock()
